@@ -104,3 +104,21 @@ def from_scratch(state, name):
             if v is not None:
                 fresh._values[n] = v
     return fresh[name]
+
+
+_FITTED = {}
+
+
+def fitted_model(kind="logistic", seed=0, n_iter=40, n_ind=8, n_ft=3, **kw):
+    """a real model fitted for a few iterations on a seeded cohort (cached per process)"""
+    import leaspy.models  # noqa
+    from leaspy.models import model_factory
+    from leaspy.io.data import Data
+    key = (kind, seed, n_iter, n_ind, n_ft, tuple(sorted(kw.items())))
+    if key not in _FITTED:
+        df = cohort(seed, n_ind=n_ind, n_ft=n_ft)
+        m = model_factory(kind, **kw)
+        with quiet():
+            m.fit(Data.from_dataframe(df), "mcmc_saem", seed=seed, n_iter=n_iter, progress_bar=False)
+        _FITTED[key] = (m, df)
+    return _FITTED[key]
